@@ -1130,6 +1130,39 @@ def string_oracle(ctx, ex):
              classes=classes + ['tokens>=5' if nt >= 5 else 'tokens<5'])
 
 
+# Minimal inputs for root causes that the random mutations reach only now
+# and then; drawn with a small probability so that every run meets each of
+# them (the set of reported signatures stays the same from seed to seed).
+POSITION_EXPLICIT = [
+    'class A {\n' + '\r' * 12 + ' $ };\n',     # CRs at the start of the line
+    '/* a\nb */ class A {\n $ };\n',          # multi-line comment before
+    ' @',                                      # first line
+    'class A { $ };',                          # last line without newline
+    'class A {\n  $ };\n',
+    '\n\nclass A { [Nope] string s;\n};\n',    # error raised in a production
+]
+STRINGS_EXPLICIT = POSITION_EXPLICIT + [
+    '#pragma namespace("1:")',
+    'class A { string s = "ab\\x4"; };',
+    'class A { uint32 p = ' + '9' * 4301 + '; };',
+    PRELUDE + 'class A { [MaxLen("abc")] string s; };',
+    PRELUDE + 'Qualifier Q : datetime, Scope(any);\n'
+    'class A { [Q(1.5)] string s; };',
+    'Qualifier Q : uint8 = 300, Scope(any);',
+    'Qualifier Q : datetime = 1.5, Scope(any);',
+    'class A { uint8 p = 300; };',
+    'class A { datetime p = 1.5; };',
+    'class A { A REF r = "x"; };',
+    'class A { A REF r = 1.5; };',
+    PRELUDE + 'class A { [Key] string k; datetime d; };\n'
+    'instance of A { k = "a"; d = 1.5; };',
+    PRELUDE + 'class A { [Key] string k; };\ninstance of A { k = NULL; };',
+    PRELUDE + 'class A { [Key] string k; };\ninstance of A { k = {}; };',
+    PRELUDE + 'class A { [EmbeddedInstance(5)] string e; };',
+    PRELUDE + 'class A { [Key] string k; [EmbeddedObject] string e; };\n'
+    'instance of A { k = "a"; e = 1.5; };',
+]
+
 _MUTATED = mutated_strategy()
 _MOF_ALPHABET = st.sampled_from(list(
     'abcxyzABC019 \n\t\r"\'\\/*#(){};[],$:=.+-_') + ['ä', '\x00'])
@@ -1139,6 +1172,9 @@ _SOUP = st.lists(st.sampled_from(_POOL + _ILLEGAL + ['\n', '/*', '*/', '//']),
 
 @st.composite
 def strings_strategy(draw):
+    if _chance(draw, 8):
+        return dict(text=_pick(draw, STRINGS_EXPLICIT), ns=None,
+                    muts=('explicit',), src='explicit')
     if _chance(draw, 80):
         return draw(_MUTATED)
     k = _int(draw, 0, 9)
@@ -1294,6 +1330,11 @@ def files_strategy(draw):
     s = _pick(draw, STRUCTURES)
     files = {}
     top = 'top.mof'
+    if _chance(draw, 12):
+        text = _pick(draw, POSITION_EXPLICIT)
+        return dict(structure='single', files={top: text.encode('utf-8')},
+                    top=top, search=False, entry='file', faulty=top,
+                    muts=('explicit',), ns=None)
     search = False
     entry = 'file'
     if s in ('single', 'nonutf8', 'bom', 'crlf', 'top-missing'):
@@ -1601,6 +1642,9 @@ def mock_strategy(draw):
     syntax-level mutations; the value/type mutations are left to the strings
     and typed sub-checks, the compiler code is the same.
     """
+    if _chance(draw, 12):
+        return dict(text=_pick(draw, POSITION_EXPLICIT), ns=None,
+                    muts=('explicit',), twice=False)
     _, info = g_unit(draw, prefix='M', pragmas=False)
     stmts = list(info['statements'])
     muts = []
